@@ -38,7 +38,7 @@ type Tbl = RawTable<u16, u32>;
 pub fn meta() -> Meta {
     Meta {
         level: "model_checking",
-        rule: "explicit-state BFS over the real RawTable<u16,u32> with exact de-duplication on the hook's concrete state (slot array with FREE/TOMBSTONE/key per slot, len, free). Alphabet: insert(k) via find_or_find_insert_slot+insert_in_slot_unchecked, remove(k) via remove_entry, retain(even|<3|none|all), drain (fully consumed), drain (one element taken, then dropped), clear, clear_no_drop, reset_no_drop, reserve(0|8|20), clone (continue on the clone); into_iter (fully and partially consumed) is evaluated as a terminal operation in every state. Hash assignments: h0 all keys hash to 0; h1 hashes (k+1)<<6 differ only above the 16/32/64-slot masks; h2 cluster at the end of the array (61,62,63,63,127,127,.. = indices 13,14,15,15,.. / 29,30,31,31,.. / 61,62,63,63,..) forcing wrap-around at every table size; h3 identity; h4 home slots 3,4,3,4,5,5,3,4 (several keys per slot on adjacent slots: interleaved collision lists). quick: a sliding-window configuration (16 keys with the identity hash, at most 2 stored at a time, insert/remove/reserve(0) only, to the fixed point: tombstones spread over the whole 16-slot array of a nearly empty table; states de-duplicated modulo the 16 rotations of the slot array, which the probing scheme (hash + i) & mask cannot distinguish); 6 keys, from the empty table, to the fixed point (no unexplored state left), 5 hash assignments x 4 first-operation classes. thorough: the same, plus 7 and 8 keys from the empty table to the fixed point or to the per-group memory cap of 13 million states (then outcome state_cap_hit and counter groups_state_cap_hit_complete_to_depth_<d>: breadth-first, so every state of depth < d was expanded completely; reported, never called a fixed point), plus 14 keys depth-bounded from the seed tables holding keys 0..p (p = 0: 7 operations; p = 12, 13: 7 operations; p = 11: 6 operations; the seeds sit just below / at / above the 16->32 growth point) so that growth by insertion, shrink-back by retain and the tombstone patterns around them are enumerated, one shard per first operation. Work is partitioned by (universe, hash assignment, seed, class of the first operation); each shard is one group and de-duplicates on its own, so 'states' is the sum over groups of the states distinct within the group (different groups revisit states); outcomes fixpoint_reached / depth_bound_reached / state_cap_hit count groups. transitions = real method calls sequences (one per explored edge) = executions (every explored edge extends a trace that was executed on the real table). A transition is non-trivial when the concrete successor state differs from its predecessor. In every state: find/get/get_mut for every key of the universe vs. the BTreeSet model with a probe bound (eq calls <= len; no lookup is issued in a state without a FREE slot, which is reported instead), len/is_empty, iter/iter_mut/into_iter report every element exactly once (ExactSize len, fused), stored status = from_hash(hash), is_slot_occupied_unchecked = hook view, free counter = number of FREE slots, len + tombstones + free = slots, FREE slots >= 25 % of the slots (RATIO_N/RATIO_D 'spare slots', 'find may diverge' assertion) and len <= capacity(). Per operation: return values, retain's predicate/drop call discipline, drain yields every element exactly once, clear/clear_no_drop/drain keep slots(), reset_no_drop gives capacity 0, reserve(n) is followed by n rehash-free insertions (no stored element moves, slots() unchanged), clone has an identical dump. The library's own debug assertions are on; a panic in any call is a violation.",
+        rule: "explicit-state BFS over the real RawTable<u16,u32> with exact de-duplication on the hook's concrete state (slot array with FREE/TOMBSTONE/key per slot, len, free). Alphabet: insert(k) via find_or_find_insert_slot+insert_in_slot_unchecked, remove(k) via remove_entry, retain(even|<3|none|all|!=1|not in {1,4}), drain (fully consumed), drain (one element taken, then dropped), clear, clear_no_drop, reset_no_drop, reserve(0|8|20), clone (continue on the clone); into_iter (fully and partially consumed) is evaluated as a terminal operation in every state. Hash assignments: h0 all keys hash to 0; h1 hashes (k+1)<<6 differ only above the 16/32/64-slot masks; h2 cluster at the end of the array (61,62,63,63,127,127,.. = indices 13,14,15,15,.. / 29,30,31,31,.. / 61,62,63,63,..) forcing wrap-around at every table size; h3 identity; h4 home slots 3,4,3,4,5,5,3,4 (several keys per slot on adjacent slots: interleaved collision lists). quick: a sliding-window configuration (16 keys with the identity hash, at most 2 stored at a time, insert/remove/reserve(0) only, to the fixed point: tombstones spread over the whole 16-slot array of a nearly empty table; states de-duplicated modulo the 16 rotations of the slot array, which the probing scheme (hash + i) & mask cannot distinguish); 6 keys, from the empty table, to the fixed point (no unexplored state left), 5 hash assignments x 4 first-operation classes. thorough: the same, plus 7 and 8 keys from the empty table to the fixed point or to the per-group memory cap of 13 million states (then outcome state_cap_hit and counter groups_state_cap_hit_complete_to_depth_<d>: breadth-first, so every state of depth < d was expanded completely; reported, never called a fixed point), plus 14 keys depth-bounded from the seed tables holding keys 0..p (p = 0: 7 operations; p = 12, 13: 7 operations; p = 11: 6 operations; the seeds sit just below / at / above the 16->32 growth point) so that growth by insertion, shrink-back by retain and the tombstone patterns around them are enumerated, one shard per first operation. Work is partitioned by (universe, hash assignment, seed, class of the first operation); each shard is one group and de-duplicates on its own, so 'states' is the sum over groups of the states distinct within the group (different groups revisit states); outcomes fixpoint_reached / depth_bound_reached / state_cap_hit count groups. transitions = real method calls sequences (one per explored edge) = executions (every explored edge extends a trace that was executed on the real table). A transition is non-trivial when the concrete successor state differs from its predecessor. In every state: find/get/get_mut for every key of the universe vs. the BTreeSet model with a probe bound (eq calls <= len; no lookup is issued in a state without a FREE slot, which is reported instead), len/is_empty, iter/iter_mut/into_iter report every element exactly once (ExactSize len, fused), stored status = from_hash(hash), is_slot_occupied_unchecked = hook view, free counter = number of FREE slots, len + tombstones + free = slots, FREE slots >= 25 % of the slots (RATIO_N/RATIO_D 'spare slots', 'find may diverge' assertion) and len <= capacity(). Per operation: return values, retain's predicate/drop call discipline, drain yields every element exactly once, clear/clear_no_drop/drain keep slots(), reset_no_drop gives capacity 0, reserve(n) is followed by n rehash-free insertions (no stored element moves, slots() unchanged), clone has an identical dump. The library's own debug assertions are on; a panic in any call is a violation.",
         assumptions: vec![
             "keys are u16 (no Drop); double drops are therefore detected only through retain's drop callback and the exactly-once checks of the iterators, not through a drop counter".into(),
             "the concrete state is read through the additive read-only hook RawTable::verif_dump (cfg(oxidd_verif)); every mutation goes through the public API".into(),
@@ -94,13 +94,16 @@ impl Op {
     }
 }
 
-const PRED_NAMES: [&str; 4] = ["even", "lt3", "none", "all"];
+const PRED_NAMES: [&str; 6] = ["even", "lt3", "none", "all", "ne1", "ne1_ne4"];
 fn pred(p: u8, k: u16) -> bool {
     match p {
         0 => k % 2 == 0,
         1 => k < 3,
         2 => false,
-        _ => true,
+        3 => true,
+        // (remove one or two keys and keep the rest: the table stays above the shrink threshold)
+        4 => k != 1,
+        _ => k != 1 && k != 4,
     }
 }
 
@@ -140,7 +143,7 @@ fn alphabet(nkeys: u16) -> Vec<Op> {
     for k in 0..nkeys {
         v.push(Op::Remove(k));
     }
-    for p in 0..4 {
+    for p in 0..PRED_NAMES.len() as u8 {
         v.push(Op::Retain(p));
     }
     v.extend([Op::Drain, Op::DrainPartial, Op::Clear, Op::ClearNoDrop, Op::ResetNoDrop]);
